@@ -36,6 +36,12 @@ package grpcmux
 //@   never_closed acceptCh   [C20.send] [C08.mux-s]
 //@   writers grpcmux.newBlockedServerListener
 
+//@ func grpcmux.newBlockedClientListener
+//@   nopanic [C08.total] [C09.total]
+//@   nonblocking
+//@   modifies heap_fresh
+//@   ensures result != nil && fresh(result) && result.waitCh != nil && cap(result.waitCh) == 1 && result.doneCh == doneCh && result.session == session   [C09.own] [C08.mux-c]
+
 //@ func grpcmux.NewGRPCServerMuxer
 //@   nopanic [C08.total] [C16.total]
 //@   nonblocking
